@@ -242,3 +242,49 @@ func VerifC08_Equal(cs int) {
 	VsAssert("extra-deep-leaf-is-not-deep-equal", !d3.IsDeepEqual())
 	vCheckDiff(d3, left, right)
 }
+
+// VerifC08_Events: nodes whose equality looks below them (EVEN, BIRT, RESI, an event with a DATE):
+// the compared child has 2 or 3 children of its own (plain values symbolic over {A,B}, so that equal
+// ones occur) and the right tree is a deep copy with those grandchildren in every other order. The diff
+// is all two-sided, accounts for everything, and computing / printing / sorting it leaves both trees as
+// they were. cs%4: kind of the child, cs/4%2: 2 or 3 grandchildren, cs/8%2: with a DATE grandchild.
+func VerifC08_Events(cs int) {
+	tags := []Tag{TagEvent, TagBirth, TagResidence, TagFromString("ZZ")}
+	// the data is drawn once: both trees carry the same values
+	ev, year := VsBytes("ev", 1, 0x41, 0x42), VsDecimal(VsInt("gy", 1900, 1901), 4)
+	gv := []string{VsBytes("g0", 1, 0x41, 0x42), VsBytes("g1", 1, 0x41, 0x42), VsBytes("g2", 1, 0x41, 0x42)}
+	mk := func(order []int, n int) Node {
+		root := NewNode(TagFromString("ROOT"), "", "")
+		c := NewNode(tags[cs%4], ev, "")
+		var grands Nodes
+		for i := 0; i < n; i++ {
+			grands = append(grands, NewNode(TagNote, gv[i], ""))
+		}
+		if cs/8%2 == 1 {
+			grands[0] = NewNode(TagDate, year, "")
+		}
+		for _, j := range order {
+			if j < n {
+				c.AddNode(grands[j])
+			}
+		}
+		root.AddNode(c)
+		return root
+	}
+	n := cs/4%2 + 2
+	left := mk(vPerms3[0], n)
+	right := mk(vPerms3[VsChoose("perm", 6)], n)
+	lBefore, rBefore := left.GEDCOMString(0), right.GEDCOMString(0)
+	d := CompareNodes(left, right)
+	VsReach("event-diffed")
+	VsAssert("computing-an-event-diff-leaves-left-untouched", VsStrEq(left.GEDCOMString(0), lBefore))
+	VsAssert("computing-an-event-diff-leaves-right-untouched", VsStrEq(right.GEDCOMString(0), rBefore))
+	VsAssert("reordered-event-children-give-all-two-sided-diff", d.IsDeepEqual())
+	vCheckDiff(d, left, right)
+	_ = d.String()
+	d.Sort()
+	_ = d.String()
+	VsAssert("event-diff-operations-leave-left-untouched", VsStrEq(left.GEDCOMString(0), lBefore))
+	VsAssert("event-diff-operations-leave-right-untouched", VsStrEq(right.GEDCOMString(0), rBefore))
+	VsAssert("deep-equality-leaves-both-trees-untouched", VsAnd(DeepEqual(left, right), VsAnd(VsStrEq(left.GEDCOMString(0), lBefore), VsStrEq(right.GEDCOMString(0), rBefore))))
+}
